@@ -1,7 +1,7 @@
 (* C16 -- TCP acknowledgements are cumulative and correct; all data gets through.
    Only statements, closed by the lemma that proves them, and their assumptions. *)
-From Coq Require Import ZArith List.
-From ONL Require Import Tcp.Sink Tcp.SinkProofs.
+From Coq Require Import ZArith QArith List.
+From ONL Require Import Tcp.Sink Tcp.SinkProofs Tcp.Sender Tcp.SenderProofs Tcp.Loop Tcp.LoopProofs.
 Import ListNotations.
 Open Scope Z_scope.
 
@@ -27,3 +27,95 @@ Theorem C16_ack_refuted_before_fix :
                     nth_error (acks false sink0 segs) j = Some b /\ b < a.
 Proof. exact ack_refuted_unfixed. Qed.
 Print Assumptions C16_ack_refuted_before_fix.
+
+(* ------------------------------------------------------------------------------------------------ *)
+(* Sender and closed loop.  Models: Tcp/Sender.v (TCPPacketGenerator), Tcp/Loop.v (sender, sink, two
+   Wires with constant delay, droppers by transmission index, agenda ordered like the kernel's).
+   [repaired] = the three fix: commits (eae436e, 5f98ada, 5f6e664); the correspondence runs [current]. *)
+
+Theorem C16_current_is_repaired : current = repaired.
+Proof. exact current_is_repaired. Qed.
+Print Assumptions C16_current_is_repaired.
+
+(* the sender alone: for every history of ACKs (any numbers, any packet ids, samples >= 0), expiries,
+   store callbacks and resumptions nothing is raised (KeyError, ZeroDivisionError, ValueError); the
+   only "error" left is the model-level NotEnabled for an event that cannot occur in the state *)
+Theorem C16_sender_never_raises : forall c cw0 ss0 rtt0,
+  0 < mss c -> (zq (mss c) <= cw0)%Q -> (0 < rtt0)%Q ->
+  forall evs x, Forall sample_ok evs -> run repaired c (init cw0 ss0 rtt0) evs = Raise x -> x = NotEnabled.
+Proof. exact sender_never_raises. Qed.
+Print Assumptions C16_sender_never_raises.
+
+Theorem C16_sender_raises_before_fix :
+  exists c evs, Forall sample_ok evs /\
+    run (mkfx true false false) c (init (1024 # 1) (65535 # 1) (1 # 16)) evs = Raise (KeyErr 512).
+Proof. exact sender_raises_before_fix. Qed.
+Print Assumptions C16_sender_raises_before_fix.
+
+(* the closed loop never raises: any flow, MSS > 0, delay >= 0, drop sets, CUBIC oracle, fuel *)
+Theorem C16_loop_never_raises : forall lc cw ss rtt0 orc,
+  lc_ok lc -> (zq (mss (lc_cfg lc)) <= cw)%Q -> (0 < rtt0)%Q ->
+  forall fuel st e, lrun fuel lc (linit cw ss rtt0 orc) <> LRaised st e.
+Proof. exact loop_never_raises. Qed.
+Print Assumptions C16_loop_never_raises.
+
+Theorem C16_loop_raises_before_fix :
+  exists st, lrun 200 lc_found (linit (1000 # 1) (65535 # 1) (1 # 4) []) = LRaised st (LSender (KeyErr 1000)).
+Proof. exact loop_raises_before_fix. Qed.
+Print Assumptions C16_loop_raises_before_fix.
+
+(* in every reachable state: last_ack <= contiguous prefix held by the sink <= next_seq *)
+Theorem C16_last_ack_le_prefix_le_next_seq : forall lc cw ss rtt0 orc st,
+  lc_ok lc -> (zq (mss (lc_cfg lc)) <= cw)%Q -> (0 < rtt0)%Q ->
+  lreach lc (linit cw ss rtt0 orc) st ->
+  last_ack (l_snd st) <= nse (l_sink st) <= next_seq (l_snd st) /\ sink_prefix (l_sink st) (nse (l_sink st)).
+Proof. exact loop_last_ack_le_prefix_le_next_seq. Qed.
+Print Assumptions C16_last_ack_le_prefix_le_next_seq.
+
+(* last_ack never decreases along any run of the loop (repaired sink + FIFO ACK wire) *)
+Theorem C16_last_ack_monotone : forall lc cw ss rtt0 orc st st',
+  lc_ok lc -> (zq (mss (lc_cfg lc)) <= cw)%Q -> (0 < rtt0)%Q ->
+  lreach lc (linit cw ss rtt0 orc) st -> lreach lc st st' ->
+  last_ack (l_snd st) <= last_ack (l_snd st').
+Proof. exact loop_last_ack_monotone. Qed.
+Print Assumptions C16_last_ack_monotone.
+
+(* unfinished => pending work: the timer of the first unacknowledged segment is armed and has its
+   kernel event on the agenda, or an event that resumes the sender process is on the agenda *)
+Theorem C16_unfinished_has_pending : forall lc cw ss rtt0 orc st,
+  lc_ok2 lc -> (zq (mss (lc_cfg lc)) <= cw)%Q -> (0 < rtt0)%Q -> fsize (lc_cfg lc) <> 0 ->
+  lreach lc (linit cw ss rtt0 orc) st ->
+  last_ack (l_snd st) < fsize (lc_cfg lc) -> pending_work lc st.
+Proof. exact loop_unfinished_has_pending. Qed.
+Print Assumptions C16_unfinished_has_pending.
+
+Theorem C16_not_quiescent_while_unfinished : forall lc cw ss rtt0 orc st,
+  lc_ok2 lc -> (zq (mss (lc_cfg lc)) <= cw)%Q -> (0 < rtt0)%Q -> fsize (lc_cfg lc) <> 0 ->
+  lreach lc (linit cw ss rtt0 orc) st ->
+  (last_ack (l_snd st) < fsize (lc_cfg lc) \/ nse (l_sink st) < fsize (lc_cfg lc)) -> l_agenda st <> [].
+Proof. exact loop_not_quiescent_while_unfinished. Qed.
+Print Assumptions C16_not_quiescent_while_unfinished.
+
+(* reliable_delivery, safety half (the liveness half -- the loop does become quiescent -- is tested,
+   LoopProofs.reliable_delivery_statement): a quiescent loop has delivered everything *)
+Theorem C16_reliable_delivery_partial : forall lc cw ss rtt0 orc st,
+  lc_ok2 lc -> (zq (mss (lc_cfg lc)) <= cw)%Q -> (0 < rtt0)%Q -> fsize (lc_cfg lc) <> 0 ->
+  lreach lc (linit cw ss rtt0 orc) st -> l_agenda st = [] ->
+  last_ack (l_snd st) = fsize (lc_cfg lc) /\ nse (l_sink st) = fsize (lc_cfg lc) /\
+  sink_prefix (l_sink st) (fsize (lc_cfg lc)).
+Proof. exact loop_quiescent_complete. Qed.
+Print Assumptions C16_reliable_delivery_partial.
+
+(* every state the executable runner ends in is reachable, so the theorems above apply to it *)
+Theorem C16_runner_reaches : forall lc st0 fuel st, lreach lc st0 st -> lreach lc st0 (lfinal (lrun fuel lc st)).
+Proof. intros lc st0 fuel st. apply lrun_reach. Qed.
+Print Assumptions C16_runner_reaches.
+
+(* lossfree_no_retransmit, proved part (LoopProofs.lossfree_no_retransmit_statement is checked by the
+   monitor): a segment is transmitted again only by its timer's expiry or a third-or-later duplicate *)
+Theorem C16_lossfree_no_retransmit_partial : forall fx c s e s' o id z,
+  0 <= dupack s -> step fx c s e = Ok s' o -> In (Tx id z) o ->
+  e = EWake \/ e = EExpire id \/
+  (exists pid sample orc, e = EAck id pid sample orc /\ id = last_ack s /\ 3 <= dupack s + 1).
+Proof. exact retransmission_needs_expiry_or_third_dup. Qed.
+Print Assumptions C16_lossfree_no_retransmit_partial.
